@@ -210,11 +210,17 @@ def _wiring(acc, job):
                                      prediction_constant=(gi + 1) / 10.0)
                 perm = list(range(n))
                 rnd.shuffle(perm)
-                pm = to._pmf_predict(X[perm], sensitive_features=table[perm])[:, 1]
-                for pos, i in enumerate(perm):
-                    exp = (sorted(d).index(key_of[rows[i]]) + 1) / 10.0
-                    if abs(float(pm[pos]) - exp) > 1e-12:
-                        problems.append(f"predict-time row {rows[i]} got probability {float(pm[pos])}, rule of its tuple gives {exp}")
+                # whole (permuted) table, every single row on its own, and every pair of rows: the rule applied to a row must not
+                # depend on which other rows happen to be in the same predict call
+                batches = [perm] + [[i] for i in range(n)] + [list(c) for c in itertools.combinations(range(n), 2)]
+                for batch in batches:
+                    pm = to._pmf_predict(X[batch], sensitive_features=table[batch])[:, 1]
+                    for pos, i in enumerate(batch):
+                        exp = (sorted(d).index(key_of[rows[i]]) + 1) / 10.0
+                        if abs(float(pm[pos]) - exp) > 1e-12:
+                            problems.append(f"predict-time row {rows[i]} in batch {[rows[j] for j in batch]} got probability {float(pm[pos])}, rule of its tuple gives {exp}")
+                            break
+                    if problems:
                         break
         except Exception as e:
             problems.append(f"raised {type(e).__name__}: {e}")
